@@ -332,6 +332,27 @@ def run_c10(tier, seed, pid="C10"):
             traces.append({"id": tid, "gen": g, "registered": list(reg), "tree": t, "fs0": fs_json(obs["fs0"]), "fs1": fs_json(obs["fs1"]),
                            "events": obs["events"], "ret": obs["ret"], "files": obs["files"]})
             meta[tid] = (g, t, "unrelated/manager-reused-after-%s" % g1 if k else "unrelated", "api", obs)
+    # the same manager AND the same parsed object: first a plug-in that accepts the tree, then one whose own checks reject it
+    # (variant "same-object"), and the object edited in place between the two calls (variant "same-object-edited") - whatever the
+    # verifier or the manager remember from the first call, the second call is decided on the tree as it is then
+    for i, (g1, g2, t1, t2) in enumerate(pairs):
+        for variant in ("same-object", "same-object-edited"):
+            mgr = GeneratorManager(make_general_verifier())
+            first = t2 if variant == "same-object" else t1
+            obj = build.mk_fcp(first)
+            reg = []
+            for k, (g, t) in enumerate(((g1, first), (g2, t2))):
+                if k == 1 and variant == "same-object-edited":
+                    fresh = build.mk_fcp(t2)
+                    for attr in ("structs", "enums", "impls", "services", "devices"):
+                        getattr(obj, attr)[:] = getattr(fresh, attr)
+                prepare_dir(out, "unrelated", g)
+                obs = run_call(g, obj, out, "api", manager=mgr)
+                reg = reg + [g]
+                tid = "o%d-%s-%d" % (i, variant, k)
+                traces.append({"id": tid, "gen": g, "registered": list(reg), "tree": t, "fs0": fs_json(obs["fs0"]), "fs1": fs_json(obs["fs1"]),
+                               "events": obs["events"], "ret": obs["ret"], "files": obs["files"]})
+                meta[tid] = (g, t, "unrelated/manager-and-%s-reused-after-%s" % (variant, g1) if k else "unrelated", "api", obs)
     # ONE parsed object generated, then edited in place (into another tree of the catalogue) and generated again - with the same
     # generator and a fresh manager each time: the gate decides on the tree as it is at the time of the call
     bad_general = [o["tree"] for o in trees if o["general"] == 0]
